@@ -35,7 +35,7 @@ ASSUMPTIONS = [
 ]
 MANIFEST = {
     'level': 'exploration',
-    'technique': 'runtime monitoring in the virtual-clock lab: reload through the real main loop, UPDATEs seen by a scripted remote speaker replayed into a reference table; enumerated per-line faults of the new file with before/after state snapshots',
+    'technique': 'runtime monitoring in the virtual-clock lab: reload through the real main loop, UPDATEs seen by a scripted remote speaker replayed into a reference table; enumerated per-line faults of the new file with before/after state snapshots; SIGUSR1 reloads of the real daemon process (file rewritten, broken file first, reload asked in the middle of a burst of API announcements) judged on the table a scripted peer obtains',
     'text': 'Configuration pairs and per-line broken variants are reloaded into the running real reactor; success must converge the peer '
     'to the new table, failure must leave neighbors, routes, peers, FSM and Adj-RIB-Out snapshots identical, the session up and the API working.',
     'note': 'trusted base: refwire decoder + PeerTable; snapshots are str() of the real objects taken inside the lab process; parser exceptions are injected at enumerated statements of the reload by a sys.monitoring LINE failpoint',
